@@ -69,6 +69,10 @@ CLEAN = [
     {'name': 'deleted-object-as-reference-target', 'schema': 'S1',      # Set.reverse_add refuses deleted owners before any mutation (repo 907c292)
      'ops': [["new", 0, 1, [[5, ["i", 0]]]], ["new", 1, 1, []], ["new", 2, 1, []], ["commit"], ["del", 1], ["del", 2],
              ["set", 0, 6, ["o", 1]], ["add", 0, 7, [2]], ["set", 0, 7, ["os", [2]]]]},
+    # cascades on earlier attributes (one-to-many set, one-to-one) precede the refusal on a later one-to-one: everything must be restored
+    {'name': 'cascades-then-late-one-to-one-refusal', 'schema': 'S2',
+     'ops': [["new", 0, 1, [[8, ["i", 0]]]], ["new", 4, 1, [[1, ["o", 0]]]], ["new", 6, 1, [[1, ["o", 0]]]], ["new", 5, 1, [[1, ["o", 0]]]],
+             ["commit"], ["del", 0], ["del", 2], ["del", 0]]},
     {'name': 'set-many-single-closure', 'schema': 'S1',
      'ops': [["new", 0, 1, [[5, ["i", 0]]]], ["new", 3, 1, [[1, ["o", 0]]]], ["new", 1, 1, []], ["setm", 0, [[6, ["o", 2]], [8, ["n"]]]]]},
     {'name': 'cascade-on-column-side-then-deleted-partner', 'schema': 'S3',
